@@ -261,6 +261,54 @@ func (t *c19tr) stmts(l []ast.Stmt) ([]string, error) {
 	return out, nil
 }
 
+// mentionSources translates the body of txMentionsAccount: loops `for _, key := range SRC { if key == pkey { return true } }`
+// over the static keys and (inside the protobuf-metadata guard) the loaded address lists, closed by `return false`.
+func (t *c19tr) mentionSources(l []ast.Stmt, nested bool) ([]string, error) {
+	var out []string
+	for i, st := range l {
+		switch s := st.(type) {
+		case *ast.RangeStmt:
+			src := ""
+			switch t.text(s.X) {
+			case "tx.Message.AccountKeys":
+				src = "MStatic"
+			case "byteSlicesToKeySlice(m.LoadedReadonlyAddresses)":
+				src = "MLoadedReadonly"
+			case "byteSlicesToKeySlice(m.LoadedWritableAddresses)":
+				src = "MLoadedWritable"
+			}
+			if src == "" || s.Value == nil || t.text(s.Value) != "key" || len(s.Body.List) != 1 || t.text(s.Body.List[0]) != "if key == pkey { return true }" {
+				return nil, fmt.Errorf("txMentionsAccount: unrecognised loop: %s", t.text(s))
+			}
+			if (src == "MStatic") == nested {
+				return nil, fmt.Errorf("txMentionsAccount: %s searched at an unexpected nesting level", src)
+			}
+			out = append(out, src)
+		case *ast.IfStmt:
+			if nested || s.Else != nil || s.Init == nil || t.text(s.Init) != "m, ok := meta.(*confirmed_block.TransactionStatusMeta)" || t.text(s.Cond) != "ok && m != nil" {
+				return nil, fmt.Errorf("txMentionsAccount: unrecognised statement: %s", t.text(s))
+			}
+			in, err := t.mentionSources(s.Body.List, true)
+			if err != nil {
+				return nil, err
+			}
+			out = append(out, in...)
+		case *ast.ReturnStmt:
+			if nested || i != len(l)-1 || t.text(s) != "return false" {
+				return nil, fmt.Errorf("txMentionsAccount: unrecognised return: %s", t.text(s))
+			}
+		default:
+			return nil, fmt.Errorf("txMentionsAccount: unrecognised statement: %s", t.text(st))
+		}
+	}
+	if !nested {
+		if len(l) == 0 || t.text(l[len(l)-1]) != "return false" {
+			return nil, fmt.Errorf("txMentionsAccount: does not end with `return false`")
+		}
+	}
+	return out, nil
+}
+
 func genC19(repo string) (string, string, error) {
 	fset, f, err := parseFile(repo, "grpc-server.go")
 	if err != nil {
@@ -306,10 +354,21 @@ func genC19(repo string) (string, string, error) {
 	if err != nil {
 		return "", "", err
 	}
+	// ---- txMentionsAccount: which account lists of the transaction are searched for the key
+	mfd := funcDecl(f, "", "txMentionsAccount")
+	if mfd == nil {
+		return "", "", fmt.Errorf("txMentionsAccount not found")
+	}
+	srcs, err := t.mentionSources(mfd.Body.List, false)
+	if err != nil {
+		return "", "", err
+	}
 	var b strings.Builder
 	b.WriteString(coqHeader("C19: the transaction predicate `filterOutTxn` of grpc-server.go:processSlotTransactions, translated statement by statement (see gen/c19.go)."))
 	b.WriteString("Require Import YF.C19_Prog.\n")
 	b.WriteString("Definition filter_prog_c19 : list stmt := [\n  " + strings.Join(prog, ";\n  ") + "\n].\n")
 	b.WriteString(fmt.Sprintf("Definition filter_send_sites_c19 : nat := %d.\n", uses))
+	b.WriteString("(* txMentionsAccount: the account lists searched, in order (each: `for _, key := range L { if key == pkey { return true } }`), then `return false` *)\n")
+	b.WriteString("Definition mention_sources_c19 : list msource := [" + strings.Join(srcs, "; ") + "].\n")
 	return "FilterProgC19.v", b.String(), nil
 }
